@@ -78,14 +78,13 @@ def hostfile(rng, hosts, np_):
 
 def config(rng, avoid=()):
     """SMPI options given identically to the online run and to the replay.
-    avoid "smp-selectors": no selector whose algorithms call Comm::init_smp() (mpich, mvapich2, impi)."""
+    avoid "smp-selectors": no collective selector (mpich, mvapich2, impi and some ompi choices call Comm::init_smp())."""
     cfg = []
     r = rng.random()
     if r < 0.25:
         sel = rng.choice(["mpich", "ompi", "mvapich2", "impi"])
-        if "smp-selectors" in avoid:
-            sel = "ompi"
-        cfg.append("--cfg=smpi/coll-selector:%s" % sel)
+        if "smp-selectors" not in avoid:
+            cfg.append("--cfg=smpi/coll-selector:%s" % sel)
     det = 65536
     if rng.random() < 0.35:
         det = rng.choice([0, 1000, 65535, 65537, 1000000])
